@@ -344,6 +344,24 @@ fn poke_of(a: &[f64]) -> Option<(usize, f64)> {
     Some((k, nv))
 }
 
+/// a second in-place change, made after the first: any interior position other than the middle
+/// one (derived from the step's `alt`, so that over a batch every interior position is visited)
+fn poke2_of(a: &[f64], alt: usize) -> Option<(usize, f64)> {
+    let n = a.len();
+    if n < 4 {
+        return None;
+    }
+    let mut k = 1 + alt.wrapping_mul(7919) % (n - 2);
+    if k == n / 2 {
+        k = if k + 1 < n - 1 { k + 1 } else { 1 };
+    }
+    if k == n / 2 || k == 0 || k >= n - 1 {
+        return None;
+    }
+    let nv = if a[k].is_finite() && a[k].abs() < 1e6 { a[k] - 0.75 } else { -1.5 };
+    Some((k, nv))
+}
+
 fn run_form(f: &Form, a: &[f64], b: &[f64], s: f64, rows: usize, alt: usize, alias: bool) -> Result<Outc, String> {
     let n = a.len();
     let cols = if n == 0 { 0 } else { n / rows };
@@ -583,6 +601,13 @@ fn run_form(f: &Form, a: &[f64], b: &[f64], s: f64, rows: usize, alt: usize, ali
                         m.data_mut()[k] = nv;
                     }
                     res.push(eval(&xv, &xm));
+                    if let Some((k2, nv2)) = poke2_of(&av, alt) {
+                        xv[k2] = nv2;
+                        if let Some(m) = xm.as_mut() {
+                            m.data_mut()[k2] = nv2;
+                        }
+                        res.push(eval(&xv, &xm));
+                    }
                 }
                 Outc { res: bits(&res), shape: (1, 1), a_after: Some(after), b_after: None }
             })
@@ -1240,6 +1265,14 @@ impl Prop for C04 {
                             if let Err(d) = check_reduction(*red, &a2, &b, rows_here.max(1), f64::from_bits(*g2)) {
                                 verdict = Some(mk("reduction_off_definition", format!("second evaluation on the same object after element {} was changed in place to {:e}: {}", k, nv, d)));
                                 break 'steps;
+                            }
+                            if let (Some((k2, nv2)), Some(g3)) = (poke2_of(&a, stp.alt), o.res.get(2)) {
+                                st.inc("reduce.third_time_after_another_in_place_change");
+                                a2[k2] = nv2;
+                                if let Err(d) = check_reduction(*red, &a2, &b, rows_here.max(1), f64::from_bits(*g3)) {
+                                    verdict = Some(mk("reduction_off_definition", format!("third evaluation on the same object after elements {} and {} were changed in place: {}", k, k2, d)));
+                                    break 'steps;
+                                }
                             }
                         }
                     }
